@@ -121,6 +121,13 @@ def run(tier):
             else:
                 run.ob(name, 'inconclusive', r)
         run.add_stats({'solver_calls': T.queries, 'solver_s': T.solver_s})
+    # ---- whole texts after a history (concrete, stated): every corpus statement is parsed, then its layout variants (one blank between
+    # two tokens replaced by a line break / by a line comment that ends at a line break or swallows the rest) are parsed in the same process;
+    # each verdict must be the one the Earley oracle gives for that variant's OWN token stream
+    try:
+        layout_history(run, tier)
+    except Exception as e:  # noqa
+        run.error('layout-history part crashed: %r' % e)
     # ---- CH strip unit
     def replay_strip(args):
         import importlib, mindsdb_sql
@@ -134,6 +141,70 @@ def run(tier):
         return (not ok), {'sql': sql, 'stripped': text}, 'strip', 'parse_sql strips more than trailing whitespace/semicolons from %r' % sql
     ch_obligations(run, HARNESS, [dict(fn='strip_unit', twin='strip_unit_reach', replay=replay_strip)], cond_to=120)
     run.finish()
+
+
+def _verdict(sql, d, L, P, earley):
+    """(accepted by the real parse_sql, sentence according to the oracle on the real lexer's tokens)"""
+    from mindsdb_sql import parse_sql
+    import re as _re
+    try:
+        types = [t.type for t in L().tokenize(_re.sub(r'[\s;]+$', '', sql))]
+        sentence = earley.recognise(types)
+    except Exception:  # noqa  (illegal character: not a sentence)
+        sentence = False
+    try:
+        accepted = parse_sql(sql, d) is not None
+    except Exception:  # noqa
+        accepted = False
+    return accepted, sentence
+
+
+def _layout_job(d):
+    import warnings
+    warnings.filterwarnings('ignore')
+    from engines.earley import Earley
+    L, P = SW.dialect_classes(d)
+    earley = Earley(P)
+    corpus = SW.harvest_corpus()[d]
+    n, bad = 0, []
+    for sql in corpus[:120]:
+        if len(sql) > 300:
+            continue
+        try:
+            toks = list(L().tokenize(sql))
+        except Exception:  # noqa
+            continue
+        a0, s0 = _verdict(sql, d, L, P, earley)          # history: the statement itself first
+        n += 1
+        if a0 and not s0:
+            bad.append((sql, sql, 'accepted but not a sentence'))
+        gaps = [(toks[i].end, toks[i + 1].index) for i in range(len(toks) - 1) if sql[toks[i].end:toks[i + 1].index] == ' '][:14]
+        for lo, hi in gaps:
+            for filler in ('\n', ' -- c\n', ' -- c '):
+                var = sql[:lo] + filler + sql[hi:]
+                a, s_ = _verdict(var, d, L, P, earley)
+                n += 1
+                if a and not s_:
+                    bad.append((sql, var, 'accepted after the statement it is a layout variant of, but its own token stream is not a sentence'))
+    return d, n, bad
+
+
+def layout_history(run, tier):
+    import multiprocessing as mp
+    with mp.get_context('fork').Pool(3) as pool:
+        res = pool.map(_layout_job, list(SW.DIALECTS))
+    for d, n, bad in res:
+        run.validated += n
+        for first, var, why in bad[:3]:
+            # replay = the same two calls in a fresh interpreter
+            import subprocess, sys as _sys
+            code = ("import sys, warnings; warnings.filterwarnings('ignore')\nfrom mindsdb_sql import parse_sql\n"
+                    "for q in (%r, %r):\n    try:\n        parse_sql(q, %r); r = 'accepted'\n    except Exception as e:\n        r = 'rejected'\nprint('LAST', r)\n") % (first, var, d)
+            o = subprocess.run([_sys.executable, '-c', code], capture_output=True, text=True, timeout=120)
+            rep = 'LAST accepted' in o.stdout
+            run.counterexample('accept-after-history:%s:%s' % (d, ' '.join(var.split())[:80]), '%s: parse_sql(%r) after parse_sql(%r): %s' % (d, var, first, why),
+                               {'history': [first, var], 'dialect': d}, rep)
+        run.ob('layout-after-history:%s' % d, 'counterexample' if bad else 'discharged', '%d texts (statement, then its layout variants)' % n)
 
 
 def handle(run, name, res):
